@@ -31,6 +31,7 @@ impl Filter for ScriptedFilter {
 struct ScriptedAppender {
     n: Arc<AtomicUsize>,
     fail: bool,
+    flushes: Arc<AtomicUsize>,
 }
 
 impl log4rs::append::Append for ScriptedAppender {
@@ -41,7 +42,9 @@ impl log4rs::append::Append for ScriptedAppender {
         }
         Ok(())
     }
-    fn flush(&self) {}
+    fn flush(&self) {
+        self.flushes.fetch_add(1, Ordering::SeqCst);
+    }
 }
 
 fn obj_keys_sorted(v: &Value) -> Vec<(usize, &Value)> {
@@ -66,10 +69,13 @@ fn check_case(case: &Value, style: usize) -> Option<Value> {
     let calls = Arc::new(Mutex::new(vec![]));
     let handled = Arc::new(AtomicUsize::new(0));
     let mut counters = vec![];
+    let mut flushes = vec![];
     let mut b = log4rs::Config::builder();
     for (a, chain) in &chains {
         let n = Arc::new(AtomicUsize::new(0));
+        let fl = Arc::new(AtomicUsize::new(0));
         counters.push((*a, n.clone()));
+        flushes.push((*a, fl.clone()));
         // the chain is declared through the builder in varying styles: filter() one by one, filters() at
         // once, or a mixture - the declaration order is what counts
         let mut ab = log4rs::config::Appender::builder();
@@ -107,7 +113,7 @@ fn check_case(case: &Value, style: usize) -> Option<Value> {
             }
         }
         let fail = at(&case["outc"], *a) == "Err";
-        b = b.appender(ab.build(a.to_string(), Box::new(ScriptedAppender { n, fail })));
+        b = b.appender(ab.build(a.to_string(), Box::new(ScriptedAppender { n, fail, flushes: fl })));
     }
     let mut rb = log4rs::config::Root::builder();
     for a in case["att"].as_array().unwrap() {
@@ -145,6 +151,17 @@ fn check_case(case: &Value, style: usize) -> Option<Value> {
             return Some(json!({"what": "filters consulted", "appender": a, "expected": want, "actual": got}));
         }
     }
+    // Log::flush reaches every appender of the configuration exactly once
+    logger.flush();
+    if case.get("flushed").is_some() {
+        for (a, fl) in &flushes {
+            let want = at(&case["flushed"], *a).as_u64().unwrap() as usize;
+            let got = fl.load(Ordering::SeqCst);
+            if got != want {
+                return Some(json!({"what": "flush calls", "appender": a, "expected": want, "actual": got}));
+            }
+        }
+    }
     let want_h = case["handled"].as_u64().unwrap() as usize;
     let got_h = handled.load(Ordering::SeqCst);
     if got_h != want_h {
@@ -172,7 +189,7 @@ fn check_threshold(meta: &Value) -> Vec<Value> {
             // and through the fan-out: delivered iff not rejected
             let n = Arc::new(AtomicUsize::new(0));
             let cfg = log4rs::Config::builder()
-                .appender(log4rs::config::Appender::builder().filter(Box::new(f)).build("t", Box::new(ScriptedAppender { n: n.clone(), fail: false })))
+                .appender(log4rs::config::Appender::builder().filter(Box::new(f)).build("t", Box::new(ScriptedAppender { n: n.clone(), fail: false, flushes: Arc::new(AtomicUsize::new(0)) })))
                 .build(log4rs::config::Root::builder().appender("t").build(log::LevelFilter::Trace))
                 .unwrap();
             log4rs::Logger::new(cfg).log(&rec);
